@@ -271,6 +271,48 @@ def blocks_json(blocks: list[tuple[int, bytes]], limit: int = 64) -> list:
 # file APIs and CLI
 
 
+
+def _stage_source(src: str, files: dict[str, Any] | None, env: dict | None):
+    """writes the main source (and the files) the way `env` says: line ends of the text files (lf | crlf | cr -- Python's
+    text mode reads them all as LF), the main source in a sub-directory with decoy files of the same names next to it
+    (paths are relative to the working directory, not to the source), an output file that already exists and is longer
+    than what will be written.  -> (source path as given to the front end, output path, list of paths to remove)"""
+    env = env or {}
+    wd = workdir()
+    nl = {"lf": "\n", "crlf": "\r\n", "cr": "\r"}[env.get("newline", "lf")]
+    staged = {}
+    for name, content in (files or {}).items():
+        if isinstance(content, str) and name.endswith(".s") and nl != "\n":
+            content = content.replace("\n", nl)
+        staged[name] = content
+    written = write_files(staged)
+    rel = "src/main.s" if env.get("subdir") else "main.s"
+    srcp = os.path.join(wd, rel)
+    os.makedirs(os.path.dirname(srcp), exist_ok=True)
+    with open(srcp, "w", encoding="utf-8", newline="") as f:
+        f.write(src.replace("\n", nl) if nl != "\n" else src)
+    written.append(srcp)
+    if env.get("subdir"):
+        for name, content in (files or {}).items():
+            decoy = os.path.join(wd, "src", name)
+            os.makedirs(os.path.dirname(decoy), exist_ok=True)
+            with open(decoy, "wb") as f:
+                f.write(b".db 0xde, 0xad\n" if name.endswith(".s") else b"\xde\xad\xbe\xef\x99")
+            written.append(decoy)
+    outp = os.path.join(wd, "out.bin")
+    if env.get("preexisting"):
+        with open(outp, "wb") as f:
+            f.write(_pattern(77, int(env["preexisting"])))
+    return rel, outp, written
+
+
+def _unstage(written: list[str]) -> None:
+    remove_files(written)
+    sub = os.path.join(workdir(), "src")
+    if os.path.isdir(sub):
+        shutil.rmtree(sub, ignore_errors=True)
+
+
 def assemble_file_api(
     src: str,
     fmt: str = "ips",
@@ -279,30 +321,27 @@ def assemble_file_api(
     files: dict[str, Any] | None = None,
     defines: dict[str, int] | None = None,
     symfile: bool = False,
+    env: dict | None = None,
 ) -> dict:
     """Program.assemble / Program.assemble_as_patch on real files in the scratch dir."""
     from a816.program import Program
 
     wd = workdir()
-    written = write_files(files)
-    srcp = os.path.join(wd, "main.s")
-    outp = os.path.join(wd, "out.bin")
+    rel, outp, written = _stage_source(src, files, env)
     symp = os.path.join(wd, "out.sym")
-    with open(srcp, "w", encoding="utf-8", newline="") as f:
-        f.write(src)
     out = {"status": "ok", "rc": None, "exc": None, "msg": "", "frame": "", "output": None, "sym": None}
     try:
         with quiet():
-            program = Program()
+            program = Program(dump_symbols=True) if (env or {}).get("dump") else Program()
             if defines:
                 for k, v in defines.items():
                     program.resolver.current_scope.add_symbol(k, v)
             if fmt == "ips":
-                rc = program.assemble_as_patch("main.s", outp, mapping, copier)
+                rc = program.assemble_as_patch(rel, outp, mapping, copier)
             else:
                 if mapping is not None:
                     program.resolver.rom_type = rom_type(mapping)
-                rc = program.assemble("main.s", outp)
+                rc = program.assemble(rel, outp)
             out["rc"] = rc
             if symfile:
                 program.exports_symbol_file(symp)
@@ -316,7 +355,7 @@ def assemble_file_api(
         if os.path.exists(outp):
             with open(outp, "rb") as f:
                 out["output"] = f.read()
-        remove_files(written + [srcp, outp, symp])
+        _unstage(written + [outp, symp])
     return out
 
 
@@ -332,16 +371,12 @@ class _LogCapture(logging.Handler):
             self.records.append(str(record.msg))
 
 
-def cli_inproc(argv: list[str], src: str, files: dict[str, Any] | None = None, capture_log: bool = True) -> dict:
+def cli_inproc(argv: list[str], src: str, files: dict[str, Any] | None = None, capture_log: bool = True, env: dict | None = None) -> dict:
     """cli_main() in this process: sys.argv patched, SystemExit caught, log records captured."""
     import a816.cli as cli
 
     wd = workdir()
-    written = write_files(files)
-    srcp = os.path.join(wd, "main.s")
-    with open(srcp, "w", encoding="utf-8", newline="") as f:
-        f.write(src)
-    outp = os.path.join(wd, "out.bin")
+    rel, outp, written = _stage_source(src, files, env)
     out = {"status": "ok", "rc": None, "exc": None, "msg": "", "frame": "", "output": None, "log": ""}
     old_argv = sys.argv
     handler = _LogCapture()
@@ -355,7 +390,7 @@ def cli_inproc(argv: list[str], src: str, files: dict[str, Any] | None = None, c
             logging.disable(logging.NOTSET)
             root.handlers = [handler]  # basicConfig() becomes a no-op, nothing goes to the console
             root.setLevel(logging.INFO)
-        sys.argv = ["x816", "main.s", "-o", outp] + argv
+        sys.argv = ["x816", rel, "-o", outp] + argv + (["--dump-symbols"] if (env or {}).get("dump") else []) + (["--verbose"] if (env or {}).get("verbose") else [])
         with contextlib.redirect_stdout(sio), contextlib.redirect_stderr(sio):
             try:
                 cli.cli_main()
@@ -376,7 +411,7 @@ def cli_inproc(argv: list[str], src: str, files: dict[str, Any] | None = None, c
         if os.path.exists(outp):
             with open(outp, "rb") as f:
                 out["output"] = f.read()
-        remove_files(written + [srcp, outp])
+        _unstage(written + [outp])
     return out
 
 
